@@ -526,6 +526,9 @@ func (e *AEnv) Release() {
 
 func NewA(c *Case, opts AOpts) *AEnv { return newA(c, opts, NewTDB(NewState(c)), nil) }
 
+// NewAOn builds the environment over a state the caller supplies (e.g. a Copy of a template state).
+func NewAOn(c *Case, opts AOpts, sdb *state.StateDB) *AEnv { return newA(c, opts, NewTDB(sdb), nil) }
+
 func newA(c *Case, opts AOpts, db *TDB, done func()) *AEnv {
 	cfg := avm.Config{Tracer: opts.Tracer, ExtraEips: append([]int{}, c.ExtraEips...)}
 	bc := ABlockCtx(c.Fork)
